@@ -57,6 +57,10 @@ ATOMS_CALL = {
     'inspect.ismethod(f)': 'CAtom AIsMethod',
     'inspect.isfunction(f)': 'CAtom AIsFunction',
     'f_self is not None': 'CAtom ASelfNotNone',
+    "getattr(f, '__self__', None) is not None": 'CAtom ASelfNotNone',
+    # truthiness of the receiver is a different predicate (falsy receivers exist): its own atom
+    'f_self': 'CAtom ASelfTruthy',
+    "getattr(f, '__self__', None)": 'CAtom ASelfTruthy',
     "hasattr(f, '__class__')": 'CAtom AHasClass',
     "hasattr(f.__class__, '__call__')": 'CAtom AClassHasCall',
     "hasattr(target_entity, '__code__')": 'CAtom ATargetHasCode',
